@@ -149,6 +149,9 @@ class ColT(TypeGen):
             if self.lower:
                 up = tm.mk_or(up, tm.mk_and(tm.mk_le(tm.const(97), k), tm.mk_le(k, tm.const(122))))
             ctx.assume(up)
+            tm.LETTER_CODES.add(k)
+            if not self.lower:
+                ctx.ghost.setdefault('upper_codes', set()).add(k)
             parts.append(tm.mk_from_code1(k))
         return SStr(tm.mk_concat(*parts))
 
@@ -559,7 +562,7 @@ def make_instance(cls, fields):
     return o
 
 
-def model_env(hyps, extra_vars=(), solvers=('z3', 'cvc5'), timeout=10.0, extra_asserts=()):
+def model_env(hyps, extra_vars=(), solvers=('z3',), timeout=2.0, extra_asserts=()):
     """A model of hyps as {var name: python value} or None."""
     vars_, funs, seen = {}, {}, set()
     for h in list(hyps) + list(extra_asserts):
